@@ -16,7 +16,7 @@ import (
 
 // RuleValidate: failures that are not error values are tested and the failing side is loud.
 func (c *Ctx) RuleValidate() *Result {
-	res := &Result{Rule: "VALIDATE", MinInst: 8}
+	res := &Result{Rule: "VALIDATE", MinInst: 5}
 	ctxPkg := load.ModulePath + "/regex/processors"
 	dScope := c.reachFromNamed(func(n string) bool { return n == "(*regex/operators.Operator).Run" })
 	for _, fn := range c.P.RepoFns {
@@ -326,6 +326,57 @@ func (c *Ctx) RuleResolve() *Result {
 				}
 			}
 			walk(u.val, 0)
+		}
+	}
+	if nameField == nil {
+		// the pattern is anchored at both ends (RX-GRAMMAR): a successful match is the whole subject, so
+		// storing the subject itself (the argument handed to the function that matches it) is the same
+		for _, s := range c.submatchSites() {
+			if s.pattern == nil || s.pattern.Name != "regex.RuleIdFileNameRegex" {
+				continue
+			}
+			_, _, _, subj, ok := regexpCall(s.call)
+			if !ok {
+				continue
+			}
+			var starts []ssa.Value
+			starts = append(starts, subj)
+			if par, ok := stripConv(subj).(*ssa.Parameter); ok {
+				pi := paramIndex(s.fn, par)
+				for _, e := range c.Graph().In[s.fn] {
+					cc := callCommon(e.Site)
+					if cc != nil && staticFn(cc) == s.fn && pi >= 0 && pi < len(cc.Args) {
+						starts = append(starts, cc.Args[pi])
+					}
+				}
+			}
+			for _, st := range starts {
+				seen := map[ssa.Value]bool{}
+				var walk func(v ssa.Value, d int)
+				walk = func(v ssa.Value, d int) {
+					if d > 6 || seen[v] {
+						return
+					}
+					seen[v] = true
+					for _, r := range referrers(v) {
+						switch x := r.(type) {
+						case *ssa.Phi:
+							walk(x, d+1)
+						case *ssa.BinOp:
+							if x.Op == token.ADD {
+								walk(x, d+1)
+							}
+						case *ssa.Store:
+							if fa, ok := x.Addr.(*ssa.FieldAddr); ok && x.Val == v {
+								if _, isG := fa.X.(*ssa.Global); isG && isTextType(x.Val.Type()) {
+									nameField = fa
+								}
+							}
+						}
+					}
+				}
+				walk(st, 0)
+			}
 		}
 	}
 	if nameField == nil {
@@ -848,6 +899,15 @@ func (c *Ctx) RuleSplitJoinFrame() *Result {
 		}
 		split, ok := join.Call.Args[0].(*ssa.Call)
 		if !ok || !isFn(staticCallee(&split.Call), "bytes", "Split") {
+			// the lines may come from a helper shared with compare that reads, splits and locates
+			if why, done := c.frameThroughHelper(ws, join); done {
+				if why != "" {
+					res.bad(key, pos, why)
+				} else {
+					res.ok(key, pos, "WriteFile(path, Join(lines, sep)) with lines = Split(ReadFile(path), sep) in the shared locator helper, exactly one element replaced, rebuilt from the captured groups")
+				}
+				continue
+			}
 			res.bad(key, pos, "the lines joined are not the result of splitting the file's contents")
 			continue
 		}
@@ -888,6 +948,10 @@ func (c *Ctx) RuleSplitJoinFrame() *Result {
 				}
 				groups := 0
 				for _, op := range stringOperands(stripConv(st.Val), 0) {
+					if g := indexPairGroup(op); g > 0 {
+						groups++
+						continue
+					}
 					for _, sm := range c.submatchSites() {
 						if sm.fn != ws.fn || sm.pattern == nil {
 							continue
@@ -1162,4 +1226,158 @@ func (c *Ctx) isAssemblyDir(v ssa.Value, depth int) bool {
 		}
 	}
 	return n > 0
+}
+
+// frameThroughHelper: FRAME when the split happens in a helper H that returns
+// (lines, index, groups): lines is bytes.Split(ReadFile(path), sep) with the
+// join's separator and the written path, the caller assigns exactly one
+// element, and the assigned line is put together from at least two captured
+// groups of the rule-line match the helper returns.
+func (c *Ctx) frameThroughHelper(ws *writeSite, join *ssa.Call) (why string, done bool) {
+	ex, ok := join.Call.Args[0].(*ssa.Extract)
+	if !ok {
+		return "", false
+	}
+	hc, ok := ex.Tuple.(*ssa.Call)
+	if !ok {
+		return "", false
+	}
+	H := staticFn(&hc.Call)
+	if H == nil || !c.P.IsRepoFn(H) || len(H.Blocks) == 0 {
+		return "", false
+	}
+	pathV := ws.cc.Args[ws.prim.pathArg]
+	pi := -1
+	for i, a := range hc.Call.Args {
+		if a == pathV {
+			pi = i
+		}
+	}
+	if pi < 0 || pi >= len(H.Params) {
+		return "the helper that yields the lines is not handed the path that is written", true
+	}
+	var problems []string
+	sepJoin, okJ := constString(stripConv(join.Call.Args[1]))
+	rets := 0
+	var matchResult = -1
+	allInstrs(H, func(in ssa.Instruction) {
+		r, ok := in.(*ssa.Return)
+		if !ok || ex.Index >= len(r.Results) {
+			return
+		}
+		rets++
+		sp, ok := stripConv(r.Results[ex.Index]).(*ssa.Call)
+		if !ok || !isFn(staticCallee(&sp.Call), "bytes", "Split") {
+			problems = append(problems, "the helper does not return bytes.Split of the file's contents as the lines")
+			return
+		}
+		sepSplit, okS := constString(stripConv(sp.Call.Args[1]))
+		if !okJ || !okS || sepJoin != sepSplit {
+			problems = append(problems, fmt.Sprintf("split separator %q and join separator %q differ: every line ending of the file changes", sepSplit, sepJoin))
+		}
+		if cx, ok := sp.Call.Args[0].(*ssa.Extract); !ok || cx.Index != 0 {
+			problems = append(problems, "the text split is not what was read from the file")
+		} else if rc, ok := cx.Tuple.(*ssa.Call); !ok || !isFn(staticCallee(&rc.Call), "os", "ReadFile") || rc.Call.Args[0] != ssa.Value(H.Params[pi]) {
+			problems = append(problems, "the text split was not read from the path that is written")
+		}
+		// no element is assigned inside the helper
+		for _, rr := range referrers(sp) {
+			if ia, ok := rr.(*ssa.IndexAddr); ok {
+				for _, r3 := range referrers(ia) {
+					if st, ok := r3.(*ssa.Store); ok && st.Addr == ssa.Value(ia) {
+						problems = append(problems, "the helper itself assigns a line")
+					}
+				}
+			}
+		}
+		// which result carries the groups of the rule-line match
+		for j, rv := range r.Results {
+			v := stripConv(rv)
+			if ld, ok := v.(*ssa.UnOp); ok && ld.Op == token.MUL {
+				if ia, ok := ld.X.(*ssa.IndexAddr); ok {
+					v = ia.X
+				}
+			}
+			if _, _, recv, _, ok := regexpCall(asInstr(v)); ok {
+				if p, _ := c.Rx().Resolve(recv); p != nil && p.NumCap() >= 3 {
+					matchResult = j
+				}
+			}
+		}
+	})
+	if rets == 0 {
+		problems = append(problems, "the helper never returns")
+	}
+	// the caller assigns exactly one element
+	stores := 0
+	var assigned ssa.Value
+	for _, r := range referrers(ex) {
+		if ia, ok := r.(*ssa.IndexAddr); ok {
+			for _, rr := range referrers(ia) {
+				if st, ok := rr.(*ssa.Store); ok && st.Addr == ssa.Value(ia) {
+					stores++
+					assigned = st.Val
+				}
+			}
+		}
+	}
+	if stores != 1 {
+		problems = append(problems, fmt.Sprintf("%d line elements are assigned instead of exactly one", stores))
+	} else {
+		groups := 0
+		for _, op := range stringOperands(stripConv(assigned), 0) {
+			ld, ok := op.(*ssa.UnOp)
+			if !ok || ld.Op != token.MUL {
+				continue
+			}
+			ia, ok := ld.X.(*ssa.IndexAddr)
+			if !ok {
+				continue
+			}
+			if gx, ok := ia.X.(*ssa.Extract); ok && gx.Tuple == ssa.Value(hc) && gx.Index == matchResult {
+				if k, ok := constInt(ia.Index); ok && k > 0 {
+					groups++
+				}
+			}
+		}
+		if groups < 2 {
+			problems = append(problems, "the line that is assigned is not put together from the text before and after the operand as captured by the rule-line pattern: what is replaced is found some other way (first occurrence of the old text, fixed offsets) and can hit another part of the line")
+		}
+	}
+	return strings.Join(uniq(problems), "; "), true
+}
+
+// indexPairGroup: v is subject[loc[2g]:loc[2g+1]] with loc the result of
+// FindSubmatchIndex / FindStringSubmatchIndex on that subject: the text of
+// capture group g (0 when v is not of that form).
+func indexPairGroup(v ssa.Value) int {
+	sl, ok := stripConv(v).(*ssa.Slice)
+	if !ok || sl.Low == nil || sl.High == nil {
+		return 0
+	}
+	elem := func(x ssa.Value) (ssa.Value, int64, bool) {
+		ld, ok := x.(*ssa.UnOp)
+		if !ok || ld.Op != token.MUL {
+			return nil, 0, false
+		}
+		ia, ok := ld.X.(*ssa.IndexAddr)
+		if !ok {
+			return nil, 0, false
+		}
+		k, ok := constInt(ia.Index)
+		return ia.X, k, ok
+	}
+	la, a, ok1 := elem(sl.Low)
+	lb, b, ok2 := elem(sl.High)
+	if !ok1 || !ok2 || la != lb || a%2 != 0 || b != a+1 {
+		return 0
+	}
+	_, m, _, subj, ok := regexpCall(asInstr(la))
+	if !ok || !(m == "FindSubmatchIndex" || m == "FindStringSubmatchIndex") {
+		return 0
+	}
+	if stripConv(subj) != stripConv(sl.X) {
+		return 0
+	}
+	return int(a / 2)
 }
